@@ -124,6 +124,18 @@ def test_slice(arg: str) -> T.Tuple[int, int]:
 
     return subslice, nrslices
 
+def num_processes_arg(arg: str) -> int:
+    try:
+        value = int(arg)
+    except ValueError:
+        raise argparse.ArgumentTypeError('NUM_PROCESSES is not an integer')
+    if value < 0:
+        raise argparse.ArgumentTypeError('NUM_PROCESSES is not a non-negative integer')
+    if value == 0:
+        # Like MESON_NUM_PROCESSES=0: use the default number of processes
+        return determine_worker_count(['MESON_TESTTHREADS'])
+    return value
+
 # Note: when adding arguments, please also add them to the completion
 # scripts in $MESONSRC/data/shell-completions/
 def add_arguments(parser: argparse.ArgumentParser) -> None:
@@ -160,7 +172,7 @@ def add_arguments(parser: argparse.ArgumentParser) -> None:
                         help="Run benchmarks instead of tests.")
     parser.add_argument('--logbase', default='testlog',
                         help="Base name for log file.")
-    parser.add_argument('-j', '--num-processes', default=determine_worker_count(['MESON_TESTTHREADS']), type=int,
+    parser.add_argument('-j', '--num-processes', default=determine_worker_count(['MESON_TESTTHREADS']), type=num_processes_arg,
                         help='How many parallel processes to use.')
     parser.add_argument('-v', '--verbose', default=False, action='store_true',
                         help='Do not redirect stdout and stderr')
